@@ -1,6 +1,8 @@
 package props
 
 import (
+	"github.com/libp2p/go-libp2p/core/peer"
+	"bytes"
 	"encoding/hex"
 	"encoding/json"
 	"fmt"
@@ -27,6 +29,12 @@ func allIdents() []Ident {
 func fetcherFor(m map[string]crypto.PrivKey) func(string) (crypto.PrivKey, error) {
 	return func(id string) (crypto.PrivKey, error) {
 		k, ok := m[id]
+		if !ok {
+			// (the identity may be written in its CID text form)
+			if pid, err := peer.Decode(id); err == nil {
+				k, ok = m[pid.String()]
+			}
+		}
 		if !ok {
 			return nil, fmt.Errorf("no key for %s", id)
 		}
@@ -203,6 +211,56 @@ var adMuts = []adMut{
 		}
 		p := &a.ExtendedProvider.Providers[r.Intn(len(a.ExtendedProvider.Providers))]
 		p.Metadata = flipOne(r, p.Metadata)
+		return true
+	}},
+	// an entry's metadata / address list replaced by the advertisement's own values, or emptied when it equals them
+	// (values that an implementation might take as "the same as the advertisement's")
+	{"ep-metadata-swapped-with-the-ads-value", func(r *rand.Rand, a *schema.Advertisement) bool {
+		if a.ExtendedProvider == nil || len(a.ExtendedProvider.Providers) == 0 {
+			return false
+		}
+		k := r.Intn(len(a.ExtendedProvider.Providers))
+		for x := range a.ExtendedProvider.Providers {
+			if a.ExtendedProvider.Providers[x].ID == a.Provider && r.Intn(3) != 0 {
+				k = x
+			}
+		}
+		p := &a.ExtendedProvider.Providers[k]
+		switch {
+		case len(p.Metadata) == 0 && len(a.Metadata) > 0:
+			p.Metadata = append([]byte(nil), a.Metadata...)
+		case bytes.Equal(p.Metadata, a.Metadata) && len(p.Metadata) > 0:
+			p.Metadata = nil
+		default:
+			return false
+		}
+		return true
+	}},
+	{"ep-addresses-swapped-with-the-ads-value", func(r *rand.Rand, a *schema.Advertisement) bool {
+		if a.ExtendedProvider == nil || len(a.ExtendedProvider.Providers) == 0 {
+			return false
+		}
+		k := r.Intn(len(a.ExtendedProvider.Providers))
+		for x := range a.ExtendedProvider.Providers {
+			if a.ExtendedProvider.Providers[x].ID == a.Provider && r.Intn(3) != 0 {
+				k = x
+			}
+		}
+		p := &a.ExtendedProvider.Providers[k]
+		same := len(p.Addresses) == len(a.Addresses)
+		for x := range p.Addresses {
+			if same && p.Addresses[x] != a.Addresses[x] {
+				same = false
+			}
+		}
+		switch {
+		case len(p.Addresses) == 0 && len(a.Addresses) > 0:
+			p.Addresses = append([]string(nil), a.Addresses...)
+		case same && len(p.Addresses) > 0:
+			p.Addresses = nil
+		default:
+			return false
+		}
 		return true
 	}},
 }
